@@ -248,13 +248,112 @@ def _slots(obj):
     return names
 
 
+def _deep(v, depth=0, seen=None):
+    """structural value of an arbitrary object graph (wave 4: Path objects with their strategy objects, closure
+    cells of path tests, class attributes, module-level containers): containers and plain objects with the
+    identity of every mutable node, functions with their closure cells; depth-limited, cycle-safe; never calls
+    anything but getattr"""
+    import types
+    if v is None or isinstance(v, (bool, int, float, str, bytes)):
+        return repr(v)
+    if depth > 7:
+        return ('...', type(v).__name__)
+    seen = seen if seen is not None else set()
+    if isinstance(v, type):
+        return ('class', v.__module__ + '.' + v.__qualname__)
+    if isinstance(v, types.ModuleType):
+        return ('module', v.__name__)
+    if isinstance(v, tuple):
+        return ('tuple', tuple(_deep(x, depth + 1, seen) for x in v))
+    if isinstance(v, (types.GeneratorType, types.FrameType, types.CodeType)):
+        return (type(v).__name__, id(v))
+    k = id(v)
+    if k in seen:
+        return ('cycle', type(v).__name__)
+    seen = seen | {k}
+    if isinstance(v, list):
+        return ('list', k, tuple(_deep(x, depth + 1, seen) for x in v))
+    if isinstance(v, dict):
+        return ('dict', k, tuple(sorted(((repr(kk) if not isinstance(kk, str) else kk), _deep(x, depth + 1, seen))
+                                        for kk, x in v.items())))
+    if isinstance(v, (set, frozenset)):
+        return ('set', k, tuple(sorted(repr(x) for x in v)))
+    if isinstance(v, (types.FunctionType, types.MethodType, types.BuiltinFunctionType)) or \
+            (callable(v) and not hasattr(v, '__dict__') and not getattr(type(v), '__slots__', None)):
+        fn = getattr(v, '__func__', v)
+        cells = []
+        for c in getattr(fn, '__closure__', None) or ():
+            try:
+                cells.append(_deep(c.cell_contents, depth + 1, seen))
+            except ValueError:
+                cells.append('<empty cell>')
+        return ('fn', getattr(fn, '__qualname__', getattr(fn, '__name__', '?')), tuple(cells))
+    mod = getattr(type(v), '__module__', '') or ''
+    if not mod.startswith('genshi'):
+        # data objects, Context values of foreign types: by canonical value only
+        return ('v', repr(canon_val(v)))
+    out = []
+    for n in _slots(v):
+        try:
+            out.append((n, _deep(getattr(v, n), depth + 1, seen)))
+        except AttributeError:
+            out.append((n, '<unset>'))
+    return ('obj', type(v).__name__, k, tuple(out))
+
+
+def _class_state(cls):
+    """the non-callable, non-descriptor entries of a class dict (mutable state kept on a class)"""
+    import types
+    out = []
+    for n, x in sorted(vars(cls).items()):
+        if n.startswith('__') and n.endswith('__'):
+            continue
+        if isinstance(x, (types.FunctionType, classmethod, staticmethod, property, types.MemberDescriptorType,
+                          types.GetSetDescriptorType, types.WrapperDescriptorType, types.MethodDescriptorType, type)):
+            continue
+        out.append((n, _deep(x, 2)))
+    return tuple(out)
+
+
+STATE_MODULES = ('genshi.template.eval', 'genshi.template.base', 'genshi.template.markup', 'genshi.template.directives',
+                 'genshi.template.loader', 'genshi.template.interpolation', 'genshi.path', 'genshi.filters.i18n',
+                 'genshi.core', 'genshi.util')
+
+
+def snap_code_state(out):
+    """state OUTSIDE the template object graph that its code runs against (wave 4): for the genshi modules the
+    render executes, every class's own non-callable attributes and every module-level mutable container (a big
+    table by size and key digest).  A cache that a render fills or rebinds shows up here as a changed location."""
+    import types
+    for mn in STATE_MODULES:
+        m = sys.modules.get(mn)
+        if m is None:
+            continue
+        for n, x in sorted(vars(m).items()):
+            if isinstance(x, type) and getattr(x, '__module__', None) == mn:
+                st = _class_state(x)
+                if st:
+                    out[('class', mn, n)] = st
+            elif isinstance(x, (dict, list, set)) and not n.startswith('__'):
+                if len(x) > 40:
+                    out[('module', mn, n)] = (type(x).__name__, id(x), len(x),
+                                              hash(tuple(sorted(repr(k) for k in x))) if not isinstance(x, list) else len(x))
+                else:
+                    out[('module', mn, n)] = _deep(x, 3)
+    return out
+
+
 def _snap_field(v, depth=0):
     from genshi.template.eval import Code
     from genshi.path import Path
     if isinstance(v, Code):
-        return ('code', id(v), v.source)
+        g = getattr(v, '_globals', None)
+        cls = getattr(g, '__self__', None)
+        return ('code', id(v), v.source, id(v.code), _deep(cls) if cls is not None else _deep(g, 4))
     if isinstance(v, Path):
-        return ('path', id(v), v.source)
+        # the parsed steps and the strategy objects with every attribute (a strategy that caches something between
+        # calls of test() changes here)
+        return ('path', id(v), v.source, _deep(getattr(v, 'paths', None), 1), _deep(getattr(v, 'strategies', None), 1))
     if isinstance(v, (list, tuple)) and depth < 4:
         return (type(v).__name__, id(v) if isinstance(v, list) else 0, tuple(_snap_field(x, depth + 1) for x in v))
     if isinstance(v, dict) and depth < 4:
@@ -327,6 +426,8 @@ def snap_template(t, out=None, path=('tmpl',)):
                                       id(getattr(f, '__self__', f))) for f in t.filters)
     out[path + ('dict',)] = tuple(sorted(k for k in t.__dict__))
     snap_events(t._stream, out, path + ('_stream',))
+    if path == ('tmpl',):
+        snap_code_state(out)
     return out
 
 
@@ -360,6 +461,17 @@ def snap_ctx(ctxt):
         out[('frame', i)] = tuple((str(k), repr(canon_val(f[k]))) for k in f)
     out[('choice',)] = repr([canon_val(list(_choice(x))) for x in ctxt._choice_stack])
     out[('match',)] = tuple((mt[1].source, tuple(sorted(mt[3])), len(mt[2])) for mt in ctxt._match_templates)
+    # wave 4: the whole entry -- the test function with its closure cells (the per-render state of the path's
+    # strategies: stacks, position counters), the Path object, the buffered events, the directives
+    for i, mt in enumerate(ctxt._match_templates):
+        try:
+            out[('match', i, 'test')] = _deep(mt[0], 1)
+            out[('match', i, 'path')] = _snap_field(mt[1])
+            out[('match', i, 'ns')] = _deep(mt[4], 3)
+            out[('match', i, 'dirs')] = tuple((id(d), type(d).__name__) for d in mt[5])
+            snap_events(mt[2], out, ('match', i, 'body'))
+        except Exception as e:  # noqa: a changed representation must not crash the harness
+            out[('match', i)] = ('unreadable', type(e).__name__)
     return out
 
 
